@@ -112,6 +112,7 @@ func buildMenu() []opDef {
 		{name: "code(S,c1)", kind: kCode, who: "S", a: "c1"},
 		{name: "code(S,c2)", kind: kCode, who: "S", a: "c2"},
 		{name: "code(S,-)", kind: kCode, who: "S", a: ""},
+		{name: "code(S,empty)", kind: kCode, who: "S", a: "e"}, // empty but non-nil slice: semantically "no code"
 		{name: "code(B,c1)", kind: kCode, who: "B", a: "c1"},
 		{name: "code(B,-)", kind: kCode, who: "B", a: ""},
 		{name: "store(S,k1,x)", kind: kStore, who: "S", a: "k1", b: "x"},
@@ -461,7 +462,9 @@ func (w *world) accountOp(op opDef) error {
 		ua.SetCodeMetadata(append([]byte{}, meta1...))
 	case kCode:
 		var c []byte
-		if op.a != "" {
+		if op.a == "e" {
+			c = []byte{}
+		} else if op.a != "" {
 			c = append([]byte{}, codes[op.a]...)
 		}
 		ua.SetCode(c)
@@ -495,6 +498,9 @@ func (w *world) refApply(op opDef) {
 		a.Meta = hx(meta1)
 	case kCode:
 		a.Code = op.a
+		if op.a == "e" {
+			a.Code = ""
+		}
 	case kStore:
 		if op.b == "" {
 			delete(a.Store, op.a)
@@ -807,7 +813,7 @@ var coreMenus = map[string][]string{
 		"remove(S)", "load(S)", "snapshot", "revert(snap top-0)", "revert(snap top-1)", "revert(0)", "commit"},
 	// everything that touches code entries, plus a storage write (makes RemoveAccount fail
 	// while the data trie is uncommitted) and a plain field change
-	"C07": {"bal(S,1)", "code(S,c1)", "code(S,c2)", "code(S,-)", "code(B,c1)", "code(B,-)", "store(S,k1,x)",
+	"C07": {"bal(S,1)", "code(S,c1)", "code(S,c2)", "code(S,-)", "code(S,empty)", "code(B,c1)", "code(B,-)", "store(S,k1,x)",
 		"remove(S)", "remove(B)", "snapshot", "revert(snap top-0)", "revert(snap top-1)", "revert(0)", "commit"},
 }
 
